@@ -259,7 +259,13 @@ func VerifAssignAgreement() {
 	if literal {
 		rhs = agLiteral(rt)
 	}
-	src := "sub vcl_recv {\n  #FASTLY RECV\n  declare local var.l " + lt + ";\n  declare local var.r " + rt + ";\n  set var.l " + op + " " + rhs + ";\n}\n"
+	// the variable operand may have received its value from a literal earlier: it is a variable all the same
+	seeded := !literal && agLiteral(rt) != "" && nondet.Bool("from_literal")
+	first := ""
+	if seeded {
+		first = "  set var.r = " + agLiteral(rt) + ";\n"
+	}
+	src := "sub vcl_recv {\n  #FASTLY RECV\n  declare local var.l " + lt + ";\n  declare local var.r " + rt + ";\n" + first + "  set var.l " + op + " " + rhs + ";\n}\n"
 	errs, ok := agLintErrors(src)
 	nondet.Assert(ok, "the program does not parse")
 	if !ok {
@@ -271,7 +277,12 @@ func VerifAssignAgreement() {
 	i := agInterp(context.RecvScope)
 	agBenign(i, "var.l", lt, "l")
 	agBenign(i, "var.r", rt, "r")
-	err := i.ProcessSetStatement(body[2].(*ast.SetStatement))
+	at := 2
+	if seeded {
+		nondet.Assert(i.ProcessSetStatement(body[2].(*ast.SetStatement)) == nil, "assigning a literal to a variable of its own type fails")
+		at = 3
+	}
+	err := i.ProcessSetStatement(body[at].(*ast.SetStatement))
 	nondet.Observe("cell", accepted, err != nil, literal)
 	if accepted {
 		nondet.Assert(err == nil, "the simulator fails on an assignment the linter accepts ("+lt+" "+op+" "+rt+")")
@@ -486,4 +497,63 @@ func VerifPredefinedSet() {
 	} else {
 		nondet.Cover("rejected")
 	}
+}
+
+// VerifPredefinedTwoScopes: a read, write or unset of a predefined variable in
+// a user subroutine annotated with two scopes is accepted by the linter
+// exactly when the reference table allows it in both; the variables are one
+// representative per distinct (access, scope set) of the table.
+func VerifPredefinedTwoScopes() {
+	type item struct {
+		v      zzPvar
+		access string
+	}
+	var items []item
+	seen := map[string]bool{}
+	add := func(v zzPvar, access string) {
+		k := access + "|" + strings.Join(v.on, ",")
+		if !seen[k] && !strings.Contains(v.name, "%any%") && !agHostBound(v.name) {
+			seen[k] = true
+			items = append(items, item{v, access})
+		}
+	}
+	for _, v := range zzPvars {
+		if v.get != "" {
+			add(v, "get")
+		}
+		switch v.set {
+		case "INTEGER", "STRING", "BOOL", "RTIME":
+			add(v, "set")
+		}
+	}
+	for _, v := range zzPvars { // every variable that can be unset, the header families with a concrete name
+		if v.unset {
+			w := v
+			w.name = strings.Replace(v.name, "%any%", "X-Verif", 1)
+			items = append(items, item{w, "unset"})
+		}
+	}
+	it := items[nondet.Choice("item", len(items))]
+	s1 := nondet.Param("SCOPE")
+	s2 := nondet.Choice("s2", len(agScopes))
+	nondet.Assume(s2 != s1)
+	want := agOn(it.v.on, agScopes[s1]) && agOn(it.v.on, agScopes[s2])
+	var stmt string
+	switch it.access {
+	case "get":
+		stmt = "log " + it.v.name + ";"
+	case "set":
+		stmt = "declare local var.v " + it.v.set + ";\n  set " + it.v.name + " = var.v;"
+	default:
+		stmt = "unset " + it.v.name + ";"
+	}
+	src := agBackendDecl + "// @scope: " + agScopes[s1] + ", " + agScopes[s2] + "\nsub user_sub {\n  " + stmt + "\n}\n"
+	errs, ok := agLintErrors(src)
+	nondet.Assert(ok, "the program does not parse")
+	if !ok {
+		return
+	}
+	nondet.Observe("two", it.v.name, it.access, agScopes[s1], agScopes[s2], len(errs) == 0, want)
+	nondet.Assert((len(errs) == 0) == want, it.access+" of "+it.v.name+" in a subroutine of vcl_"+agScopes[s1]+" and vcl_"+agScopes[s2]+": the linter's verdict is not the conjunction of the two scopes' table entries")
+	nondet.Cover("checked")
 }
